@@ -102,6 +102,18 @@ void harness(void)
 		ASSERT(rv == -1, "C10: BOUNDS, BOUND, INTEGER, INT and END at the beginning of a line are section keywords for the scanner, in any letter case");
 		st->eof = 1;	/* the cursor assertion below is about arbitrary line contents, not this constructed one */
 		break; }
+	case 13: {	/* C10: the word FREE (any letter case) ends a bound statement only as a WORD: a column name that merely begins with
+			 * these letters (freeze, free_1, Free2) is a name */
+		static const char w[4] = "FREE"; static const char follow[7] = { 0, '\n', ' ', 'z', '1', '_', '<' };
+		int k = nondet_int(), j, isword; ASSUME(0 <= k && k <= 6);
+		for (j = 0; j < 4; j++) st->line[j] = nondet_bool() ? (char) (w[j] + 32) : w[j];
+		st->line[4] = follow[k]; st->line[5] = 0; st->p = st->line;
+		isword = !(follow[k] == 'z' || follow[k] == '1' || follow[k] == '_');
+		rv = mpq_ILLtest_lp_state_next_is(st, "FREE");
+		ASSERT((rv != 0) == isword, "C10: FREE is recognised iff it is a whole word (not the beginning of a longer name)");
+		ASSERT(st->p == st->line + (rv ? 4 : 0), "C11: the cursor moves past the word only when it was recognised");
+		st->eof = 1;
+		break; }
 	default: rv = mpq_ILLtest_lp_state_next_is(st, "<="); break;
 	}
 	if (!st->eof) {
